@@ -141,6 +141,9 @@ func parseSignatureParams(transaction *transaction, headers jws.Headers, _ *jws.
 		jwkKey := key.(jwk.Key)
 		// Only public keys may be embedded: refuse private (and symmetric) keys, they would be disclosed to the whole network.
 		switch jwkKey.(type) {
+		case jwk.ECDSAPrivateKey, jwk.RSAPrivateKey, jwk.OKPPrivateKey:
+			// must be checked first: the OKP private key type of jwx also satisfies the jwk.OKPPublicKey interface
+			return transactionValidationError("`jwk` header must contain a public key")
 		case jwk.ECDSAPublicKey, jwk.RSAPublicKey, jwk.OKPPublicKey:
 			// OK
 		default:
